@@ -562,8 +562,24 @@ func c07conns(r *Run) {
 		frag := int(dc.Serializer.Downstream.FragmentSize)
 		nb := frag*(1+c.Pick(6, "wc-fragments")) + 1 + c.Pick(frag, "wc-rest")
 		want := ss + int64(nb)
+		// In half of these the client application is slow to read: it reads nothing while the server writes and
+		// closes (the tunnel receives and acknowledges everything meanwhile) and only looks again ten seconds
+		// after the close - what was acknowledged must still be there, before the end of the stream.
+		lagging := c.Chance(1, 2, "reader-lags-behind-the-close")
+		if lagging {
+			pc.Do(Op{Kind: "pause"})
+			r.Count("write_then_close_with_lagging_reader")
+		}
 		r.PreemptOn("preempt-seed")
 		ps.Do(Op{Kind: "write-close", N: nb})
+		if lagging {
+			r.Drive(&NetPolicy{Whole: true}, func() bool {
+				_, _, _, _, sclosed, _ := ps.Snapshot()
+				return sclosed
+			}, nil, 2*time.Minute, 20*time.Minute)
+			r.RunFor(10 * time.Second)
+			pc.Do(Op{Kind: "resume"})
+		}
 		out = r.Drive(&NetPolicy{Whole: true}, func() bool {
 			_, got, eof, rerr, _, _ := pc.Snapshot()
 			return got == want || eof || rerr != nil
